@@ -214,6 +214,71 @@ def rp3_rule(chk, rule: str, fn, bufs: set[str], offs: set[str], loop, what: str
 # --------------------------------------------------------------------------------------------------
 
 
+def partial_reject_rule(chk, fn, tail_attr: str, rule="C03.partial"):
+    """Rule written after seeding round 6 (seed C03-6): a rejection decided on an incomplete line looks at the bytes it refuses.
+    Where the parser keeps an incomplete line for the next read (`self.<tail> = <rest>`), it knows a prefix of the line only.  Refusing there is
+    sound when the refusal follows from the bytes in hand for every continuation (a bare LF, a length over the limit).  A refusal that rests on
+    parser state alone also fires for the prefix of input that the complete-line path accepts in that state (the CR of a stray CRLF after a
+    message that closes the connection: skipped when it arrives whole, refused when the read ends between CR and LF)."""
+    spell = [t for t in K.tail_spellings(fn, tail_attr) if t != f"self.{tail_attr}"]
+    blocks = []
+    for a in ast.walk(K._root(fn)):
+        if isinstance(a, ast.Assign) and any(norm.raw(t) == f"self.{tail_attr}" for t in a.targets) and not isinstance(a.value, ast.Constant) and norm.raw(a.value) not in ("EMPTY", "b''") and f"self.{tail_attr}" not in norm.raw(a.value):
+            blk = PC._block_of(a)
+            # the store happens when input runs out: the statements of its block end the pass over the buffer (break / return / data = EMPTY)
+            if blk is not None and any(isinstance(x, (ast.Break, ast.Return)) for x in blk[blk.index(a) + 1:]) and blk not in blocks:
+                blocks.append(blk)
+    names = set()
+    for t in spell:
+        try:
+            names |= {n.id for n in ast.walk(ast.parse(t, mode="eval")) if isinstance(n, ast.Name)} - {"self"}
+        except SyntaxError:
+            pass
+    # locals the retained bytes are built from in the same block (tail = data[start_pos:])
+    n_r = 0
+    for blk in blocks:
+        local = set(names)
+        for st_ in blk:
+            if isinstance(st_, ast.Assign) and isinstance(st_.targets[0], ast.Name) and any(norm.raw(st_.targets[0]) in sp or norm.raw(st_.value) in sp for sp in spell):
+                local.add(st_.targets[0].id)
+        store = next(x for x in blk if isinstance(x, ast.Assign) and any(norm.raw(t) == f"self.{tail_attr}" for t in x.targets))
+        # ... and locals computed from them anywhere in the function (size_b = chunk.partition(...)[0]; ending = chunk[skip:...])
+        grew = True
+        while grew:
+            grew = False
+            for st_ in [K._root(fn)]:
+                for a in ast.walk(st_):
+                    if isinstance(a, (ast.Assign, ast.NamedExpr)):
+                        tg = [a.target] if isinstance(a, ast.NamedExpr) else a.targets
+                        if any(isinstance(n, ast.Name) and n.id in local for n in ast.walk(a.value)):
+                            for t in tg:
+                                for n in (t.elts if isinstance(t, (ast.Tuple, ast.List)) else [t]):
+                                    if isinstance(n, ast.Name) and n.id not in local:
+                                        local.add(n.id)
+                                        grew = True
+        for st_ in blk[:blk.index(store)]:
+            # guards of the incomplete line: `if <test>: ...; raise` statements of the block itself (a complete-line branch that ends in
+            # continue/return and was written without `else` is not one of them)
+            if not (isinstance(st_, ast.Raise) or (isinstance(st_, ast.If) and st_.body and isinstance(st_.body[-1], ast.Raise))):
+                continue
+            for r in ([st_] if isinstance(st_, ast.Raise) else [st_.body[-1]]):
+                n_r += 1
+                tests = []
+                cur = r
+                for anc in list(_ancestors(r, st_)) + [st_]:
+                    if isinstance(anc, (ast.If, ast.While)):
+                        tests.append(anc.test)
+                seen = {n.id for t in tests for n in ast.walk(t) if isinstance(n, ast.Name)} | {norm.raw(n) for t in tests for n in ast.walk(t) if isinstance(n, ast.Attribute)}
+                if seen & (local | {f"self.{tail_attr}"}):
+                    chk.ok(rule, r, f"the incomplete line is refused because of its own bytes ({', '.join(sorted(seen & local))}): true for every continuation")
+                else:
+                    chk.violation(rule, r, K.short(r), f"a test of the retained bytes ({', '.join(sorted(local))}) in front of the raise",
+                                  f"{fn.qualname} refuses an incomplete line without looking at it ({' and '.join(norm.raw(t) for t in tests) or 'unconditionally'}): the same bytes are accepted when the line arrives whole and the complete-line path skips or accepts it in that state (a stray CRLF after a message that closes the connection: skipped in one read, `400 Data after Connection: close` when the read ends between CR and LF)")
+    if not blocks:
+        chk.analysis_error(f"{rule}: the place where {fn.qualname} keeps an incomplete line (self.{tail_attr} = <rest>; break) was not found")
+    chk.expect_count(rule, n_r, 1 if tail_attr == "_tail" else 0, f"rejections on incomplete input in {fn.qualname}")
+
+
 def limits_rule(chk, rule: str, fn, what: str, tail_attr: str):
     """RP2: the limit a *buffered partial* line is compared with equals the limit of a *complete* line
     at the same syntactic position."""
@@ -453,6 +518,8 @@ def run(chk):
     batch_rule(chk, repo)
     linelen_rule(chk, repo)
     peek_rule(chk, repo)
+    partial_reject_rule(chk, hp, "_tail")
+    partial_reject_rule(chk, pp, "_chunk_tail")
     # whether a compressed body is accepted as complete must not depend on where the reads fell: the decoder's member-boundary flag is
     # decided after the last input of a call was fed (rule shared with C09)
     from rules import C09
